@@ -226,8 +226,15 @@ func CheckC18(run *evid.Run) {
 				rs := []restore{{"the writer's object through the keyed codec", e, same}, {"the writer's object through a key-less codec", e, none}}
 				if dd, err := same.DecodeRawEntry(node, e.Hash, provider); err == nil {
 					rs = append(rs, restore{"the object a same-key reader decoded, through the keyed codec", dd, same})
+					rs = append(rs, restore{"a Copy() of the object a same-key reader decoded, through the keyed codec", dd.Copy(), same})
 				}
-				for _, r := range rs {
+				rs = append(rs, restore{"a Copy() of the writer's object through the keyed codec", e.Copy(), same})
+				// (last, because it lets a stranger look at the writer's own object first)
+				rs = append(rs, restore{"the writer's object, after a log with ANOTHER key tried to verify it, through the keyed codec", e, same})
+				for ri, r := range rs {
+					if ri == len(rs)-1 {
+						_ = e.Verify(provider, other) // refused, as it must be - and it must leave the object alone
+					}
 					sc := store.New()
 					nc, err := entry.ToMultihashWithIO(x.W.Ctx, r.obj, sc.API(), nil, r.io)
 					if err != nil {
@@ -254,6 +261,23 @@ func CheckC18(run *evid.Run) {
 						w["stored_again"] = r.what
 						w["new_block_identifier"] = nc.String()
 						run.Violate("C18/link-in-clear", det("form", leaked, "stored_again", r.what), w, "storing %s again wrote a block (%s) that shows the entry's links (%s)", r.what, hx.Short(nc.String()), leaked)
+					}
+					if nn, err := store.Decode(nc, nraw); err == nil && r.io == same {
+						// the new block is a block like the first: the other key opens nothing, the same key everything
+						if od, err := other.DecodeRawEntry(nn, nc, provider); err == nil && (len(od.GetNext()) != 0 || len(od.GetRefs()) != 0) {
+							w := wit()
+							w["stored_again"] = r.what
+							run.Violate("C18/foreign-reader-got-links", det("reader", "other key", "stored_again", r.what), w, "after storing %s again, a reader with ANOTHER key obtains %d links from the new block", r.what, len(od.GetNext())+len(od.GetRefs()))
+						}
+						if sd, err := same.DecodeRawEntry(nn, nc, provider); err != nil {
+							w := wit()
+							w["stored_again"] = r.what
+							run.Violate("C18/same-key-decode", det("stored_again", r.what), w, "after storing %s again, a reader with the same key cannot decode the new block: %v", r.what, err)
+						} else if !model_eqCids(sd.GetNext(), e.Next) || !model_eqCids(sd.GetRefs(), e.Refs) {
+							w := wit()
+							w["stored_again"] = r.what
+							run.Violate("C18/same-key-links-differ", det("stored_again", r.what), w, "after storing %s again, a reader with the same key recovers other link lists from the new block", r.what)
+						}
 					}
 				}
 			}
